@@ -121,6 +121,8 @@ class HandshakeMonitor(Monitor):
         self.last_sh = {}      # client index -> last SERVER_HELLO-typed datagram handed to that client
         self.to_server = {}    # addr -> list of datagrams delivered to the server from that address
         self.connected = []
+        self.all_sh = {}       # client index -> every SERVER_HELLO-typed datagram handed to that client (late duplicates are
+                               # dropped by a keyed client: the one it adopted is SOME earlier one, not necessarily the last)
         self.evil = []
 
     def on_app_message(self, w, end, seq, msg):
@@ -134,6 +136,7 @@ class HandshakeMonitor(Monitor):
             ce = w.end_for_addr(d.dst) if not isinstance(d.dst, str) else w.clients[int(d.dst[1:])]
             if ce is not None and len(d.data) >= 20 and d.data[12] == SH:
                 self.last_sh[ce.index] = d.data
+                self.all_sh.setdefault(ce.index, []).append(d.data)
 
     def on_handler_event(self, w, name, client, args):
         if name != "connect":
@@ -166,7 +169,18 @@ class HandshakeMonitor(Monitor):
                 if c.status not in (ConnectionStatus.CONNECTING, ConnectionStatus.DISCONNECTED, ConnectionStatus.DROPPED) or c.session_key_bytes is not None:
                     self.flag("client-auth", "client without key in an unexpected status", "%s" % c.status)
                 continue
-            parsed = parse_server_hello(self.last_sh.get(ce.index, b"\x00" * 24))
+            why = None
+            for cand in reversed(self.all_sh.get(ce.index, []) or [b"\x00" * 24]):
+                why = self._explain(c, cand, pinned)
+                if why is None:
+                    break
+            if why is not None:
+                self.flag("client-auth", "client holds a key / is CONNECTED although %s" % why, "client %d status=%s" % (ce.index, c.status))
+
+    def _explain(self, c, data, pinned):
+        """None if this hello justifies the client's key, else the reason it does not"""
+        if True:
+            parsed = parse_server_hello(data)
             why = None
             if parsed is None:
                 why = "no well-formed server hello was processed"
@@ -183,8 +197,7 @@ class HandshakeMonitor(Monitor):
                         want = None
                     if c.session_salt != salt or c.token != token or c.session_key_bytes != want or want is None or len(want) != 16:
                         why = "the adopted key/salt/token are not those of the signed payload"
-            if why is not None:
-                self.flag("client-auth", "client holds a key / is CONNECTED although %s" % why, "client %d status=%s" % (ce.index, c.status))
+            return why
 
     def state(self):
         return (len(self.violations),)
@@ -632,7 +645,7 @@ def scenario(params, ch):
     n_clients, cross, order, latency = params
     mon = HandshakeMonitor()
     w = World(n_clients=n_clients, root_index=ROOT, key_offset=KOFF, order=order, latency=latency, chooser=ch, monitors=[mon],
-              fates=[] if cross == "reconnect" else ["drop", "dup", "delay2", "delay8"])
+              fates=[] if cross == "reconnect" else ["drop", "dup", "delay2", "delay8", "dupdelay2", "dupdelay6"])
     try:
         # the hellos emitted inside World() were emitted before fates could be asked? no: fates are set in the constructor
         pinned = w.root_key.getPublicKey()
@@ -666,7 +679,8 @@ def scenario(params, ch):
                 ce.client.forceDisconnect()
             w.run(2)
             mon.last_sh.clear()
-            w.fates = ["drop", "dup", "delay2", "delay8"]
+            mon.all_sh.clear()
+            w.fates = ["drop", "dup", "delay2", "delay8", "dupdelay2", "dupdelay6"]
             for ce in w.clients:
                 w.client_reconnect(ce.index)
             for t in range(40):
@@ -686,6 +700,12 @@ def scenario(params, ch):
             if sc is not None and c.session_key_bytes is not None and c.status == ConnectionStatus.CONNECTED:
                 if sc.session_key_bytes != c.session_key_bytes or len(sc.session_key_bytes) != 16 or sc.token != c.token:
                     ch.flag("key-agreement", "both ends completed the handshake but keys/tokens differ", "client %d" % ce.index)
+            # a client that adopted a key: whatever the server holds for that address (half-open or connected) has the same one
+            anyc = sc or w.ctxt.temp_connections.get(ce.addr)
+            if (c.status == ConnectionStatus.CONNECTED and c.session_key_bytes is not None and anyc is not None and not cross
+                    and anyc.session_key_bytes is not None and anyc.session_key_bytes != c.session_key_bytes):
+                ch.flag("key-agreement", "the client completed the handshake but the server holds a different key for its address (duplicated / reordered handshake datagrams)",
+                        "client %d: client key %s..., server (%s) key %s..." % (ce.index, c.session_key_bytes[:4].hex(), "connected" if sc else "half-open", anyc.session_key_bytes[:4].hex()))
             if w.fault_free and not cross and (sc is None or c.status != ConnectionStatus.CONNECTED):
                 ch.flag("honest-handshake", "an honest, fault free handshake does not complete", "client %d status %s" % (ce.index, c.status))
         ch.outcome = (tuple(res), len(mon.connected))
@@ -740,7 +760,7 @@ def run(tier, seed):
     plist += [(1, "reconnect", "cs", 1), (1, "reconnect", "sc", 0)]
     if tier == "thorough":
         plist += [(2, None, "sc", 0), (2, "SH", "sc", 0), (2, "CR", "sc", 0), (2, "CR-data", "sc", 0), (3, None, "cs", 1)]
-    st = explore.explore_all("checks.c02", "scenario", plist, 2 if tier == "quick" else 3, time_budget=(150 if tier == "quick" else 1500))
+    st = explore.explore_all("checks.c02", "scenario", plist, 2 if tier == "quick" else 3, time_budget=(900 if tier == "quick" else 3000))
     sig_counts = getattr(st, "sig_counts", {})
     for v in st.violations:
         key = (v["oracle"], v["sig"])
